@@ -9,3 +9,8 @@ for p in C01 C02 C03 C04 C05 C06 C07 C08 C09 C10 C11 C12 C13 C14 C15 C16 C17 C18
 done
 wait
 rm -f /tmp/runall_*.log
+# lean/GenPinned is the description of the pinned tree, used when a changed tree's description no longer builds:
+# on the pinned tree it must equal what the translator produces now
+if ! diff -rq lean/MotoModel/Gen lean/GenPinned >/dev/null 2>&1; then
+  if git -C "${MOTO_REPO:-/repo}" diff --quiet 2>/dev/null; then echo "WARNING: lean/GenPinned differs from the regenerated description of a clean tree: cp lean/MotoModel/Gen/*.lean lean/GenPinned/"; fi
+fi
